@@ -52,6 +52,20 @@ def upperBound : Key → Option Key
     | some u => some (b :: u)
     | none => if b == 255 then none else some [b + 1]
 
+/-- The loop of `dbutils.UpperBound` AS WRITTEN in db/dbutils/bound.go:
+`for i := len(prefix) - 1; i >= 0; i-- { if prefix[i] == maxByte { continue }; ub = make([]byte, i+1);
+copy(ub, prefix); ub[i]++; return ub }; return nil` — the counter `n` here is Go's `i + 1`. Bytes equal
+to `0xff` are skipped from the end; at the first other byte the prefix is CUT right after it
+(`make([]byte, i+1)`) and that byte is incremented. `upperBoundGo_eq` (ProofsBound.lean): it is the
+recursive `upperBound` above. The driver answers `ub P` with this function. -/
+def upperBoundLoop (p : Key) : Nat → Option Key
+  | 0 => none
+  | i + 1 =>
+    if p.getD i 0 == 255 then upperBoundLoop p i
+    else some (p.take i ++ [p.getD i 0 + 1])
+
+def upperBoundGo (p : Key) : Option Key := upperBoundLoop p p.length
+
 /-! ## Finite maps -/
 
 /-- Finite map from keys, kept sorted by key (invariant `Sorted`, proved in `Proofs`). -/
